@@ -1049,6 +1049,14 @@ impl ObjFiber {
     pub(crate) fn close_upvalues(&mut self, index: usize) {
         let index_addr = &self.stack[index] as *const _;
         let predicate = |v| v >= index_addr;
+        #[cfg(feature = "verif_hooks")]
+        crate::vm::verif::event(|| {
+            format!(
+                "close fiber={:#x} from={}",
+                self as *const _ as usize,
+                index
+            )
+        });
 
         while self.open_upvalues.is_some()
             && self
@@ -1058,6 +1066,14 @@ impl ObjFiber {
                 .is_open_with_pred(predicate)
         {
             let upvalue = self.open_upvalues.unwrap();
+            #[cfg(feature = "verif_hooks")]
+            crate::vm::verif::event(|| {
+                format!(
+                    "closed fiber={:#x} cell={:#x}",
+                    self as *const _ as usize,
+                    upvalue.as_ptr() as usize
+                )
+            });
             self.open_upvalues = {
                 let mut borrowed_upvalue = upvalue.borrow_mut();
                 borrowed_upvalue.close();
@@ -1089,6 +1105,17 @@ impl ObjFiber {
     }
 
     pub(crate) fn push_exc_handler(&mut self, catch_ip: *const u8, finally_ip: *const u8) {
+        #[cfg(feature = "verif_hooks")]
+        crate::vm::verif::event(|| {
+            format!(
+                "push_handler fiber={:#x} depth={} stack={} frames={} no_catch={}",
+                self as *const _ as usize,
+                self.exc_handlers.len() + 1,
+                self.stack.len(),
+                self.frames.len(),
+                (finally_ip == catch_ip) as u8
+            )
+        });
         self.exc_handlers.push(ExcHandler {
             catch_ip,
             finally_ip,
@@ -1098,6 +1125,15 @@ impl ObjFiber {
     }
 
     pub(crate) fn pop_exc_handler(&mut self) -> Option<ExcHandler> {
+        #[cfg(feature = "verif_hooks")]
+        crate::vm::verif::event(|| {
+            format!(
+                "pop_handler fiber={:#x} depth={} frames={}",
+                self as *const _ as usize,
+                self.exc_handlers.len(),
+                self.frames.len()
+            )
+        });
         self.exc_handlers.pop()
     }
 
